@@ -22,6 +22,7 @@ void vf_obs(unsigned long long v){ printf("O %llu\n", v); }
   for (u32 i = 0; i < n; i++) p[i] = vf_u##W(); return p; }
 VF_BUF(8) VF_BUF(16) VF_BUF(32) VF_BUF(64)
 void vf_free(void* p){ free(p); }
+void* vf_alloc(unsigned n){ return malloc(n); }
 void VF_ENTRY(void);
 }
 int main(){ VF_ENTRY(); fflush(stdout); return 0; }
